@@ -215,7 +215,7 @@ func init() {
 			"distinct = kind + files; non-trivial = at least two non-empty files and a search result that takes features from two files",
 		Assumptions: []string{"a feature is stored in the file that holds everything it references, except overlay paths/relations, which reference the base",
 			"no feature ID occurs in two files (shadowing is not promised by the property)"},
-		Quick: 32, Thorough: 640,
+		Quick: 64, Thorough: 800,
 		// the cap is a safety net only: a case costs seconds, but the box may be shared and builds allocate ~80 MB per goroutine and stage
 		CaseCap: 15 * time.Minute,
 		Required: []string{"kind_components", "kind_interleaved", "kind_distinct-namespaces", "kind_overlay", "files_merged", "overlay_path_over_base_points",
